@@ -91,9 +91,13 @@ def search(ctx):
                 if not abs(R[:, 1] @ xC) <= 1e-7:
                     report("position_control:yB", "body y axis is not perpendicular to the heading direction", inp, abs(R[:, 1] @ xC), 1e-7)
     # SE_2(3) outer loop
-    for it in range(n // 2):
+    for it in range(n // 2 + 6):
         kp = rng.uniform(0.5, 3, 3); zeta = rng.standard_normal(9) * 0.5; at = rng.standard_normal(3)
         trim = float(rng.uniform(5, 30)); zi = float(rng.standard_normal())
+        if it >= n // 2:
+            # vanishing demanded force: no trim, no error, no feed-forward (exactly zero), or a force of a fraction of a millinewton
+            zeta = np.zeros(9); zi = 0.0; trim = 0.0
+            at = [np.zeros(3), np.array([0, 0, 2e-4]), np.array([1e-4, -2e-4, 1e-4])][(it - n // 2) % 3]
         yaw = float(rng.uniform(-3.1, 3.1)); qc = nl.quat_axis_angle([0, 0, 1], yaw)
         nT, qr, zi2 = spc(trim, kp, zeta, at, qc, zi, 0.01); ev += 1
         inp = {"thrust_trim": trim, "kp": kp.tolist(), "zeta": zeta.tolist(), "at_w": at.tolist(), "qc_wb": qc.tolist(), "z_i": zi}
@@ -102,8 +106,8 @@ def search(ctx):
         R = nl.quat_to_R(qr); xC = np.array([math.cos(yaw), math.sin(yaw), 0])
         if not abs(R[:, 1] @ xC) <= 1e-7:
             report("se23_position_control:yB", "body y axis is not perpendicular to the heading direction", inp, abs(R[:, 1] @ xC), 1e-7)
-        if not (nT > 0 and abs(zi2) <= 1e-15):
-            report("se23_position_control:misc", "thrust magnitude not positive / integrator outside its limit", inp, 1.0, 0)
+        if not (nT >= 0 and abs(zi2) <= 1e-15):
+            report("se23_position_control:misc", "thrust magnitude negative / integrator outside its limit", inp, 1.0, 0)
     # flatness references
     fr = F("Ref", "bezier.f_ref"); mr = F("Ref", "mr_ref_traj.mr_ref_traj")
     Jm = np.array([[JB[0], 0, JB[3]], [0, JB[1], 0], [JB[3], 0, JB[2]]])
